@@ -229,6 +229,10 @@ pub mod util;
 mod vanishing_poly;
 pub mod verifier;
 
+/// Hooks for the external verification harness (off by default).
+#[cfg(feature = "verif_hooks")]
+pub mod verif_hooks;
+
 #[cfg(test)]
 pub mod fibonacci_stark;
 #[cfg(test)]
